@@ -58,6 +58,32 @@ theorem C16_reader_serves_last_archive (d : BlobDir) (ops : List BlobOp) :
     ((d.run ops).1.step .open).2 = (match lastArchive ops d.archive with | .valid ms => .served ms | _ => .error) := by
   rw [(C16_open_serves_archive_only _).1, C16_archive_is_last_build]
 
+/-- T16.a (several names)  operations on one blob name never change what another name in the same directory holds or serves -/
+theorem C16_names_independent (s : BlobStore) (k k' : Nat) (op : BlobOp) (h : k' ≠ k) : ((s.step k op).1).get k' = s.get k' := by
+  have hk : ((k : Nat) == k') = false := by simpa using (Ne.symm h)
+  have key : ∀ ps : BlobStore, (ps.filter (fun p => p.1 != k)).find? (fun p => p.1 == k') = ps.find? (fun p => p.1 == k') := by
+    intro ps
+    induction ps with
+    | nil => rfl
+    | cons p ps ih =>
+      by_cases hp : p.1 = k
+      · have h1 : (p.1 != k) = false := by simp [hp]
+        have h2 : (p.1 == k') = false := by rw [hp]; exact hk
+        rw [List.filter_cons, h1, List.find?_cons, h2]
+        simpa using ih
+      · have h1 : (p.1 != k) = true := by simp [hp]
+        rw [List.filter_cons, h1]
+        simp only [if_true, List.find?_cons]
+        rw [ih]
+  unfold BlobStore.step BlobStore.get
+  simp only [List.find?_cons, hk, key]
+
+/-- … and the blob that is operated on behaves as if it were alone in the directory -/
+theorem C16_name_own_step (s : BlobStore) (k : Nat) (op : BlobOp) :
+    ((s.step k op).1).get k = ((s.get k).step op).1 ∧ (s.step k op).2 = ((s.get k).step op).2 := by
+  unfold BlobStore.step
+  simp [BlobStore.get]
+
 /-- Non-vacuity: a reader served dataset 1, then an archive of dataset 2 built elsewhere is copied in: the next reader is served
 dataset 2's members only. -/
 example : ((({} : BlobDir).run [.build 1 ["a"], .open, .install 2 ["a", "b"], .open]).2.getLast?) = some (.served [⟨"a", 2⟩, ⟨"b", 2⟩]) := by decide
